@@ -132,9 +132,9 @@ PROPS["C10"] = {
 # Go functions translated on this run (coq/Gen/Src*.v, by tools/globalsgen srcgen.go) equal the model's functions
 SOURCE_TIE = {
     "C01": ("C01_source", "jwt.Decode with loadClaims and parseHeaders (accepts exactly what the model's decode accepts, same kind and issuer), jwt.DecodeGeneric (accepts exactly what the model's decode_generic accepts - the layout the header's algorithm names, verified by the translated ClaimsData.verify - and hands back the payload with the version-1 kind and tags re-homed in the version-1 layout only), ClaimsData.verify, identifier.Version; the unknown functions they consult pinned by name"),
-    "C04": ("C01_source", "jwt.DecodeGeneric's re-homing (Properties/C01_source.v, C01_source_decode_generic: in the version-1 layout, and only there, a data map is made if the payload had none and the top-level kind and tags are stored into it when there are any; nothing else of the unmarshalled payload is touched)"),
+    "C04": (["C04_source", "C01_source"], "the four version-1 migrations v1OperatorClaims / v1AccountClaims / v1UserClaims / v1ActivationClaims .migrateV1 (Properties/C04_source.v: which field of the version-2 claims receives what, in order, and that nothing else is written - the opaque type instantiated by the log of the stores); jwt.DecodeGeneric's re-homing (Properties/C01_source.v, C01_source_decode_generic: in the version-1 layout, and only there, a data map is made if the payload had none and the top-level kind and tags are stored into it when there are any; nothing else of the unmarshalled payload is touched)"),
     "C02": (["C02_source", "C02_source_encode", "C02_source_prefixes"], "ExpectedPrefixes() of the seven kinds (a fresh list of constants, equal to the generated role table); the six typed decoders (each against the model's decode_typed), identifier.Kind; on the Encode side ClaimsData.doEncode's role rule and every kind's Encode (refusing whenever the model's encode_gate refuses)"),
-    "C05": (["C05_source", "C05_source_encode", "C05_source_codec", "C01_source"], "jwt.DecodeGeneric (three segments, valid header, no other gate: Properties/C01_source.v); decodeString / encodeToString / serialize of both packages (the unpadded base64url codec and json.Marshal, nothing around them) and the updateVersion of the six typed kinds; Header.Valid, parseHeaders, loadClaims; on the Encode side ClaimsData.doEncode (version-2 algorithm only, three segments, signature over header-dot-claims)"),
+    "C05": (["C05_source", "C05_source_encode", "C05_source_codec", "C01_source"], "loadOperator / loadAccount / loadUser / loadActivation (any version but 1 and 2 refused before the payload is looked at, whatever json.Unmarshal and Migrate are; what is done for versions 1 and 2, in order; the functions consulted pinned); jwt.DecodeGeneric (three segments, valid header, no other gate: Properties/C01_source.v); decodeString / encodeToString / serialize of both packages (the unpadded base64url codec and json.Marshal, nothing around them) and the updateVersion of the six typed kinds; Header.Valid, parseHeaders, loadClaims; on the Encode side ClaimsData.doEncode (version-2 algorithm only, three segments, signature over header-dot-claims)"),
     "C06": (["C06_source", "C06_source_imports", "C06_source_exports", "C06_source_limits", "C06_source_account", "C07_source_results"], "RenamingSubject.Validate (an import's local subject against the subject it renames: the model's v_renaming, whole tokens counted); AccountClaims.Validate and Account.Validate themselves (the whole walk: imports, exports, limits, default permissions, mappings, external authorization, trace, the import / export / wildcard limits, signing keys with UserScope.Validate, Info.Validate with url.Parse as an oracle, OperatorLimits.IsEmpty; the one store Validate makes - a trace sampling of zero becomes 100 - returned as an effect log) against the model's v_account_claims; OperatorClaims.Validate and Operator.Validate with validateAccountServerURL, ValidateOperatorServiceURL, validateOperatorServiceURLs and ParseServerVersion against v_operator_claims; Subject.countTokenWildcards, Subject.Validate, ServiceLatency.Validate, Export.Validate (with the Export kind / response-type predicates); Imports.Validate (the walk over the import list with its set of delivery subjects, every pair compared both ways) against the model's v_imports; Exports.Validate with its overlap scan isContainedIn (one blocking issue per distinct containing subject) against the model's v_exports / v_overlaps; OperatorLimits.Validate (tiers versus flat JetStream limits, blank tier names) against v_op_limits; and the validation results themselves (Properties/C07_source_results.v)"),
     "C07": (["C07_source", "C06_source_account", "C07_source_results"], "AccountClaims.Validate / Account.Validate and OperatorClaims.Validate / Operator.Validate (append exactly the model's v_account_claims / v_operator_claims, whose time-check issues C07_time_account / C07_time_operator count: the time issues of an account are those of its own standard fields, an embedded activation token adds none, and nothing is skipped when the claims are expired); the validation results themselves - CreateValidationResults, Add, AddError, AddWarning, AddTimeCheck, IsBlocking, IsEmpty, Errors, Warnings of both packages (a results object is its list of issues: nothing dropped, capped, replaced or shared) - and ClaimsData.Validate (v2 and v1compat), the time checks every kind delegates to"),
     "C08": ("C08_source", "OperatorClaims.DidSign and AccountClaims.DidSign; SigningKeys.Contains / Keys / GetScope (membership among the keys of the set whatever is filed under them), and with it the account's DidSign asked through the translated Contains"),
